@@ -37,6 +37,10 @@ fn is_zero(x: &usize) -> bool {
     *x == 0
 }
 
+fn is_zero_i64(x: &i64) -> bool {
+    *x == 0
+}
+
 impl CfgSpec {
     pub fn from_encoder(e: &config::Encoder) -> Self {
         let sf = &e.subframe_coding;
@@ -218,6 +222,10 @@ pub struct Workload {
     /// accepted fills are concerned.
     #[serde(default, skip_serializing_if = "Vec::is_empty")]
     pub probe_reads: Vec<usize>,
+    /// the source's `len_hint` (when it has one) is off by this many samples - a hint is advisory (a file
+    /// that grows, a header that lies); what STREAMINFO states must be what was consumed
+    #[serde(default, skip_serializing_if = "is_zero_i64")]
+    pub len_hint_off: i64,
     /// `block_size` field of the configuration when it differs from the block size passed to the entry
     /// point (the argument overrides the field; both are legal and independent)
     #[serde(default, skip_serializing_if = "Option::is_none")]
@@ -471,6 +479,7 @@ pub fn gen(purpose: Purpose, tier: Tier, seed: u64, index: u64) -> Workload {
         faults: vec![],
         hashq_cap: *r.pick(&[16usize, 16, 1, 2, 4]),
         probe_reads: vec![],
+        len_hint_off: 0,
         cfg_block: None,
         pre_reads: 0,
         synthetic_silence: false,
@@ -606,6 +615,10 @@ pub fn gen(purpose: Purpose, tier: Tier, seed: u64, index: u64) -> Workload {
             // cheap configurations: the STREAMINFO facts do not depend on them
             if r.chance(0.6) {
                 w.cfg.use_lpc = false;
+            }
+            // a source whose length hint is off (too small or too large)
+            if w.len_hint && r.chance(0.12) {
+                w.len_hint_off = *r.pick(&[-1i64, 1, -17, 17, -1000, 1000, i64::from(i32::MAX)]);
             }
             // a source that was partly read by its owner before the encoder gets it
             if r.chance(0.1) && w.nfull >= 2 {
@@ -791,6 +804,7 @@ pub fn fresh_small(r: &mut Rng) -> Workload {
         faults: vec![],
         hashq_cap: 16,
         probe_reads: vec![],
+        len_hint_off: 0,
         cfg_block: None,
         pre_reads: 0,
         synthetic_silence: false,
